@@ -15,7 +15,7 @@ var profiles = map[string][]weighted{
 		{"restart", 7}, {"restartall", 1}, {"lossy", 3}, {"snapshot", 3}, {"addvoter", 2}, {"addnonvoter", 1}, {"demote", 1}, {"remove", 2},
 		{"transfer", 3}, {"verify", 2}, {"barrier", 2}, {"reload", 2}, {"shutdown", 1}, {"stalesuffix", 1}, {"lagcompact", 1}, {"inheritedtail", 1}, {"join", 2}, {"flakyreads", 3}, {"snapfallback", 3}, {"figure8", 3}},
 	"election": {{"apply", 15}, {"tick", 8}, {"isolate", 12}, {"partition", 8}, {"oneway", 5}, {"heal", 12}, {"crash", 6}, {"crashop", 10},
-		{"restart", 10}, {"lossy", 6}, {"transfer", 6}, {"reload", 5}, {"addvoter", 1}, {"demote", 1}, {"remove", 2}, {"cutleader", 4}, {"succcrash", 5}},
+		{"restart", 10}, {"lossy", 6}, {"transfer", 6}, {"reload", 5}, {"addvoter", 1}, {"demote", 1}, {"remove", 2}, {"cutleader", 4}, {"succcrash", 5}, {"doublechange", 5}, {"join", 2}},
 	"snapshot": {{"apply", 35}, {"tick", 6}, {"lagcompact", 8}, {"stalesuffix", 6}, {"snapshot", 8}, {"crash", 6}, {"crashop", 6}, {"restart", 8},
 		{"isolate", 6}, {"heal", 8}, {"restartall", 2}, {"addvoter", 1}, {"remove", 1}, {"demote", 1}, {"transfer", 2}, {"reload", 2}, {"join", 2}, {"flakyreads", 5}, {"snapcfg", 6}, {"staleis", 4}, {"snapfallback", 5}, {"latesnapshot", 5}},
 	"durability": {{"apply", 30}, {"tick", 6}, {"restartall", 6}, {"crash", 8}, {"restart", 10}, {"crashop", 8}, {"isolate", 8}, {"partition", 8},
@@ -23,7 +23,7 @@ var profiles = map[string][]weighted{
 	"commit": {{"apply", 35}, {"tick", 6}, {"cutleader", 8}, {"partition", 8}, {"isolate", 4}, {"heal", 10}, {"addvoter", 2}, {"addnonvoter", 2},
 		{"demote", 2}, {"remove", 1}, {"crash", 4}, {"restart", 5}, {"barrier", 2}, {"lossy", 4}, {"join", 2}, {"flakyreads", 7}, {"figure8", 5}, {"stalesuffix", 4}},
 	"membership": {{"apply", 20}, {"tick", 6}, {"addvoter", 9}, {"addnonvoter", 6}, {"demote", 7}, {"remove", 8}, {"transfer", 6}, {"isolate", 6},
-		{"heal", 8}, {"crash", 5}, {"restart", 6}, {"partition", 4}, {"crashop", 4}, {"reload", 2}, {"cutleader", 2}, {"cfgrestart", 3}, {"join", 10}, {"snapcfg", 4}, {"snapshot", 3}},
+		{"heal", 8}, {"crash", 5}, {"restart", 6}, {"partition", 4}, {"crashop", 4}, {"reload", 2}, {"cutleader", 2}, {"cfgrestart", 3}, {"join", 10}, {"snapcfg", 4}, {"snapshot", 3}, {"doublechange", 6}},
 	"clients": {{"apply", 45}, {"tick", 5}, {"barrier", 8}, {"transfer", 6}, {"isolate", 5}, {"heal", 6}, {"remove", 2}, {"demote", 1}, {"crash", 4},
 		{"restart", 5}, {"cutleader", 3}, {"lossy", 2}, {"snapshot", 2}, {"inheritedtail", 4}, {"inflightfault", 3}, {"slowtransfer", 4}, {"busydisk", 4}, {"restoreinflight", 3}},
 	"verify": {{"verify", 25}, {"cutleader", 10}, {"partition", 8}, {"isolate", 5}, {"heal", 10}, {"apply", 15}, {"lossy", 6}, {"addnonvoter", 2},
@@ -239,6 +239,9 @@ func genAction(t *rapid.T, p *Program, ws []weighted) Action {
 		a.Arg = rapid.IntRange(0, 3).Draw(t, "call")
 	case "staleis":
 		a.N = oneOf(t, "writes", 3, 6, 12)
+	case "doublechange":
+		a.N = rapid.IntRange(0, 4).Draw(t, "first")
+		a.Arg = rapid.IntRange(0, 3).Draw(t, "kinds")
 	case "removeverify":
 		a.N = rapid.IntRange(0, 3).Draw(t, "who")
 		a.Arg = rapid.IntRange(0, 3).Draw(t, "slow")
